@@ -6,6 +6,7 @@ import MptModel.Lemmas.DispatchTable
 import MptModel.Lemmas.DispatchText
 import MptModel.Lemmas.DispatchSpec
 set_option linter.unusedSimpArgs false
+set_option linter.constructorNameAsVariable false
 namespace Mpt.Dispatch
 
 /-- table invariant: live ids pairwise distinct, live registrations pairwise distinct, no placeholder handler -/
@@ -83,7 +84,7 @@ theorem commandSet_user {tab : Option Table} {id : Id} {r : Reg} (hw : TWf tab)
     have hnone := commandGet_none hg
     cases tab with
     | none =>
-      have hres : res = (some { slots := [⟨id, some .user, r⟩], cap := allocSize slotSize, typed := true }, 1, []) := by
+      have hres : res = (some { slots := [⟨id, some .user, r⟩], cap := allocSize slotSize }, 1, []) := by
         simp [res, commandSet]
       rw [hres]
       refine ⟨⟨?_, ?_, ?_⟩, Or.inr ⟨hnone, rfl, by simp, ?_⟩⟩
@@ -158,7 +159,7 @@ theorem commandSet_user {tab : Option Table} {id : Id} {r : Reg} (hw : TWf tab)
 /-- `mpt_dispatch_set(disp, id, NULL, NULL)` -/
 theorem dispatchSet_clear {d : Disp} {id : Id} (hw : TWf d.tab) :
     let res := dispatchSet d id none 0
-    TWf res.1.tab ∧ res.1.dflt = d.dflt ∧ res.1.err = d.err ∧
+    TWf res.1.tab ∧ res.1.dflt = d.dflt ∧ res.1.err = d.err ∧ res.1.bi = d.bi ∧
     ((∃ old, (id, old) ∈ liveList d.tab ∧ res.2.2 = [.fin old] ∧ 0 ≤ res.2.1 ∧
         ∀ p, p ∈ liveList res.1.tab ↔ (p ∈ liveList d.tab ∧ p.1 ≠ id)) ∨
      ((∀ r', (id, r') ∉ liveList d.tab) ∧ res.2.2 = [] ∧ res.2.1 < 0 ∧ res.1 = d)) := by
@@ -188,7 +189,7 @@ theorem dispatchSet_clear {d : Disp} {id : Id} (hw : TWf d.tab) :
     rw [hsplit] at hk hr
     have hfin : finalise old = [.fin old.arg] := by
       rw [finalise_user (hu old (List.mem_of_getElem? hi)), hl]; rfl
-    refine ⟨⟨?_, ?_, ?_⟩, rfl, rfl, Or.inl ⟨old.arg, ?_, hfin, by simp, ?_⟩⟩
+    refine ⟨⟨?_, ?_, ?_⟩, rfl, rfl, rfl, Or.inl ⟨old.arg, ?_, hfin, by simp, ?_⟩⟩
     · rw [liveList_some, hset]
       simp only [List.map_append, List.map_cons, List.map_nil, List.nodup_append, List.nodup_cons, List.mem_append, List.mem_cons, List.mem_map] at hk ⊢
       grind
@@ -208,13 +209,13 @@ theorem dispatchSet_clear {d : Disp} {id : Id} (hw : TWf d.tab) :
     have hres : res = (d, Err.BadArgument.code, []) := by
       simp only [res, dispatchSet, hg]
     rw [hres]
-    exact ⟨hw, rfl, rfl, Or.inr ⟨hnone, rfl, by simp [Err.code], rfl⟩⟩
+    exact ⟨hw, rfl, rfl, rfl, Or.inr ⟨hnone, rfl, by simp [Err.code], rfl⟩⟩
 
 /-- `mpt_dispatch_set(disp, id, handler, registration)` -/
 theorem dispatchSet_user {d : Disp} {id : Id} {r : Reg} (hw : TWf d.tab)
     (hfresh : ∀ p, p ∈ liveList d.tab → p.2 ≠ r) :
     let res := dispatchSet d id (some .user) r
-    TWf res.1.tab ∧ res.1.dflt = d.dflt ∧ res.1.err = d.err ∧
+    TWf res.1.tab ∧ res.1.dflt = d.dflt ∧ res.1.err = d.err ∧ res.1.bi = d.bi ∧
     ((∃ old, (id, old) ∈ liveList d.tab ∧ res.2.2 = [] ∧ res.2.1 < 0 ∧ res.1 = d) ∨
      ((∀ r', (id, r') ∉ liveList d.tab) ∧ res.2.2 = [] ∧ 0 ≤ res.2.1 ∧
         ∀ p, p ∈ liveList res.1.tab ↔ p ∈ liveList d.tab ∨ p = (id, r))) := by
@@ -226,7 +227,7 @@ theorem dispatchSet_user {d : Disp} {id : Id} {r : Reg} (hw : TWf d.tab)
     have hres : res = (d, Err.BadArgument.code, []) := by
       simp only [res, dispatchSet, hg]
     rw [hres]
-    refine ⟨hw, rfl, rfl, Or.inl ⟨old.arg, ?_, rfl, by simp [Err.code], rfl⟩⟩
+    refine ⟨hw, rfl, rfl, rfl, Or.inl ⟨old.arg, ?_, rfl, by simp [Err.code], rfl⟩⟩
     rw [htab, liveList_some, ← hid]
     exact mem_liveL_of_getElem hi hl
   | none =>
@@ -236,7 +237,7 @@ theorem dispatchSet_user {d : Disp} {id : Id} {r : Reg} (hw : TWf d.tab)
       simp only [res, dispatchSet, hg]
     rw [hres]
     obtain ⟨hw', hcase⟩ := commandSet_user (id := id) hw hfresh
-    refine ⟨hw', rfl, rfl, Or.inr ?_⟩
+    refine ⟨hw', rfl, rfl, rfl, Or.inr ?_⟩
     rcases hcase with ⟨old, hold, _⟩ | ⟨h1, h2, h3, h4⟩
     · exact absurd hold (hnone old)
     · exact ⟨h1, h2, h3, h4⟩
@@ -247,31 +248,48 @@ def resolveReg (cmd : Option (Nat × Slot)) (err : Option Nat) : Option Reg :=
   | some (_, s) => some s.arg
   | none => err
 
-theorem emitResolved_spec {d : Disp} {cmd : Option (Nat × Slot)} {evid : Id} {res : HRes}
+/-- the flag handling of `mpt_dispatch_emit` is the spec's bookkeeping function -/
+theorem emitFlags_book (d : Disp) (evid : Id) (res : HRes) (hs : ¬ res.val < 0) (log : List LogE) :
+    emitFlags d res.val (if res.zero then 0 else evid) log =
+      ({ d with dflt := (book d.dflt evid res).2 }, ⟨.val (book d.dflt evid res).1, log⟩) := by
+  simp only [emitFlags, book, hs, if_false]
+  by_cases hd : hasDefault res.val.toNat = true
+  · simp [hd]
+  · simp [hd]
+
+/-- the built-in fallback of the model is the spec's `builtinAnswer` -/
+theorem unknownEvent_answer (evid : Id) (msg : Option (List Byte)) :
+    unknownEvent evid msg = ((builtinAnswer evid msg).val, if (builtinAnswer evid msg).zero then 0 else evid) ∧
+      ¬ (builtinAnswer evid msg).val < 0 := by
+  unfold unknownEvent builtinAnswer
+  by_cases h0 : (evid != 0) = true
+  · simp [h0]
+  · simp only [h0, if_false]
+    cases msg with
+    | none => simp
+    | some b => cases b <;> simp
+
+theorem emitResolved_spec {d : Disp} {cmd : Option (Nat × Slot)} {evid : Id} {msg : Option (List Byte)} {res : HRes}
     (hcmd : ∀ i s, cmd = some (i, s) → s.cmd = some .user) :
-    emitResolved d cmd evid res =
+    emitResolved d cmd evid msg res =
       match resolveReg cmd d.err with
       | some r => ({ d with dflt := (book d.dflt evid res).2 }, ⟨.val (book d.dflt evid res).1, [.call r evid]⟩)
-      | none => (d, ⟨.val (-1), []⟩) := by
+      | none =>
+        if d.bi then ({ d with dflt := (book d.dflt evid (builtinAnswer evid msg)).2 },
+                      ⟨.val (book d.dflt evid (builtinAnswer evid msg)).1, []⟩)
+        else (d, ⟨.val (-1), []⟩) := by
   have key : ∀ r, (match invoke Hnd.user r evid res with
       | none => (d, (⟨.fault, []⟩ : Out))
       | some (log, evid', state) =>
         if state < 0 then (d, ⟨.val state, log⟩)
-        else
-          let f := state.toNat
-          let d1 := if hasDefault f then { d with dflt := evid' } else d
-          let f1 := if hasDefault f then clrDefault f else f
-          let f2 := if d1.dflt != 0 then setDefault f1 else f1
-          (d1, ⟨.val (Int.ofNat f2), log⟩)) =
+        else emitFlags d state evid' log) =
       ({ d with dflt := (book d.dflt evid res).2 }, ⟨.val (book d.dflt evid res).1, [.call r evid]⟩) := by
     intro r
-    simp only [invoke, book]
+    simp only [invoke]
     by_cases hneg : res.val < 0
-    · simp [hneg]
+    · simp [hneg, book]
     · simp only [hneg, if_false]
-      by_cases hd : hasDefault res.val.toNat = true
-      · simp [hd]
-      · simp [hd]
+      exact emitFlags_book d evid res hneg _
   unfold emitResolved
   cases cmd with
   | some x =>
@@ -281,13 +299,21 @@ theorem emitResolved_spec {d : Disp} {cmd : Option (Nat × Slot)} {evid : Id} {r
     exact key s.arg
   | none =>
     cases he : d.err with
-    | none => simp [Err.code, resolveReg]
+    | none =>
+      simp only [Option.map_none, resolveReg]
+      by_cases hb : d.bi = true
+      · simp only [hb, if_true]
+        obtain ⟨h1, h2⟩ := unknownEvent_answer evid msg
+        rw [h1]
+        have := emitFlags_book d evid (builtinAnswer evid msg) h2 []
+        simp only [he, hb] at this ⊢
+        exact this
+      · simp [hb, Err.code]
     | some r =>
       simp only [Option.map_some, resolveReg]
       have := key r
       simp only [he] at this
       exact this
-
 
 /- ---------- the refinement relation ---------- -/
 structure Rel (m : St) (sp : Spec) : Prop where
@@ -295,8 +321,9 @@ structure Rel (m : St) (sp : Spec) : Prop where
   fb : sp.fb = m.d.err
   dflt : sp.dflt = m.d.dflt
   next : sp.next = m.next
+  bi : sp.bi = m.d.bi
 
-theorem Rel.init (fb : Bool) : Rel (St.init fb) (Spec.init fb) := by
+theorem Rel.init (fb : Start) : Rel (St.init fb) (Spec.init fb) := by
   constructor <;> simp [St.init, Spec.init, liveList]
 
 theorem Rel.fresh {m : St} {sp : Spec} (hr : Rel m sp) (hs : SInv sp) :
@@ -316,9 +343,9 @@ theorem Rel.lookup_none {m : St} {sp : Spec} (hr : Rel m sp) {id : Id}
 
 theorem refines_set {m : St} {sp : Spec} {id : Id} (hw : TWf m.d.tab) (hr : Rel m sp) (hs : SInv sp) :
     ∃ sp', sp.step (.set id) (step m (.set id)).2 = some sp' ∧ Rel (step m (.set id)).1 sp' ∧ TWf (step m (.set id)).1.d.tab := by
-  obtain ⟨hw', hdf, herr, hcase⟩ := dispatchSet_user (id := id) hw (hr.fresh hs)
+  obtain ⟨hw', hdf, herr, hbi, hcase⟩ := dispatchSet_user (id := id) hw (hr.fresh hs)
   simp only [step, Spec.step]
-  generalize dispatchSet m.d id (some .user) m.next = res at hw' hdf herr hcase
+  generalize dispatchSet m.d id (some .user) m.next = res at hw' hdf herr hbi hcase
   rcases hcase with ⟨old, hold, hlog, hret, hsame⟩ | ⟨hnone, hlog, hret, hlive⟩
   · have hlk := hr.lookup_some hs hold
     refine ⟨{ sp with next := sp.next + 1 }, ?_, ?_, hw'⟩
@@ -326,7 +353,7 @@ theorem refines_set {m : St} {sp : Spec} {id : Id} (hw : TWf m.d.tab) (hr : Rel 
       have : ¬ (0 ≤ res.2.1) := by omega
       simp [this, hret]
     · rw [hsame]
-      exact ⟨hr.live, hr.fb, hr.dflt, by simp [hr.next]⟩
+      exact ⟨hr.live, hr.fb, hr.dflt, by simp [hr.next], hr.bi⟩
   · have hlk := hr.lookup_none hnone
     refine ⟨{ sp with live := sp.live ++ [(id, sp.next)], next := sp.next + 1, regd := sp.regd ++ [sp.next] }, ?_, ?_, hw'⟩
     · simp only [Spec.stepRegister, hlk, hlog, Spec.isOk]
@@ -337,6 +364,7 @@ theorem refines_set {m : St} {sp : Spec} {id : Id} (hw : TWf m.d.tab) (hr : Rel 
       · simp only [herr]; exact hr.fb
       · simp only [hdf]; exact hr.dflt
       · simp [hr.next]
+      · simp only [hbi]; exact hr.bi
 
 
 theorem refines_cset {m : St} {sp : Spec} {id : Id} (hw : TWf m.d.tab) (hr : Rel m sp) (hs : SInv sp) :
@@ -355,6 +383,7 @@ theorem refines_cset {m : St} {sp : Spec} {id : Id} (hw : TWf m.d.tab) (hr : Rel
       · exact hr.fb
       · exact hr.dflt
       · simp [hr.next]
+      · exact hr.bi
   · have hlk := hr.lookup_none hnone
     refine ⟨{ sp with live := sp.live ++ [(id, sp.next)], next := sp.next + 1, regd := sp.regd ++ [sp.next] }, ?_, ?_, hw'⟩
     · simp only [Spec.stepRegister, hlk, hlog, Spec.isOk]
@@ -365,10 +394,11 @@ theorem refines_cset {m : St} {sp : Spec} {id : Id} (hw : TWf m.d.tab) (hr : Rel
       · exact hr.fb
       · exact hr.dflt
       · simp [hr.next]
+      · exact hr.bi
 
 theorem refines_clear {m : St} {sp : Spec} {id : Id} (hw : TWf m.d.tab) (hr : Rel m sp) (hs : SInv sp) :
     ∃ sp', sp.step (.clear id) (step m (.clear id)).2 = some sp' ∧ Rel (step m (.clear id)).1 sp' ∧ TWf (step m (.clear id)).1.d.tab := by
-  obtain ⟨hw', hdf, herr, hcase⟩ := dispatchSet_clear (id := id) hw
+  obtain ⟨hw', hdf, herr, hbi, hcase⟩ := dispatchSet_clear (id := id) hw
   simp only [step, Spec.step]
   rcases hcase with ⟨old, hold, hlog, hret, hlive⟩ | ⟨hnone, hlog, hret, hsame⟩
   · have hlk := hr.lookup_some hs hold
@@ -381,12 +411,13 @@ theorem refines_clear {m : St} {sp : Spec} {id : Id} (hw : TWf m.d.tab) (hr : Re
       · simp only [herr]; exact hr.fb
       · simp only [hdf]; exact hr.dflt
       · exact hr.next
+      · simp only [hbi]; exact hr.bi
   · have hlk := hr.lookup_none hnone
     refine ⟨sp, ?_, ?_, hw'⟩
     · simp only [hlk, hlog, Spec.isErr]
       simp [hret]
     · rw [hsame]
-      exact ⟨hr.live, hr.fb, hr.dflt, hr.next⟩
+      exact ⟨hr.live, hr.fb, hr.dflt, hr.next, hr.bi⟩
 
 theorem fin_map_nodup {l : List (Id × Reg)} (h : (l.map (·.2)).Nodup) : (l.map (LogE.fin ·.2)).Nodup := by
   have : l.map (LogE.fin ·.2) = (l.map (·.2)).map LogE.fin := by simp
@@ -437,6 +468,7 @@ theorem refines_clearAll {m : St} {sp : Spec} (hw : TWf m.d.tab) (hr : Rel m sp)
     · exact hr.fb
     · exact hr.dflt
     · exact hr.next
+    · exact hr.bi
 
 
 /-- a resolved element is a harness handler -/
@@ -480,28 +512,37 @@ theorem lookup_eq {m : St} {sp : Spec} {id : Id} (hr : Rel m sp) (hs : SInv sp) 
     rw [hr.lookup_none (commandGet_none hg)]; rfl
 
 /-- `emitResolved` against `stepEmit` -/
-theorem refines_resolved {m : St} {sp : Spec} {id : Id} {h : HRes} (hw : TWf m.d.tab) (hr : Rel m sp) (hs : SInv sp) :
-    ∃ sp', sp.stepEmit id h (emitResolved m.d (commandGet m.d.tab id) id h).2 = some sp' ∧
-      Rel { m with d := (emitResolved m.d (commandGet m.d.tab id) id h).1 } sp' ∧
-      (emitResolved m.d (commandGet m.d.tab id) id h).1.tab = m.d.tab := by
+theorem refines_resolved {m : St} {sp : Spec} {id : Id} {msg : Option (List Byte)} {h : HRes}
+    (hw : TWf m.d.tab) (hr : Rel m sp) (hs : SInv sp) :
+    ∃ sp', sp.stepEmit id msg h (emitResolved m.d (commandGet m.d.tab id) id msg h).2 = some sp' ∧
+      Rel { m with d := (emitResolved m.d (commandGet m.d.tab id) id msg h).1 } sp' ∧
+      (emitResolved m.d (commandGet m.d.tab id) id msg h).1.tab = m.d.tab := by
   rw [emitResolved_spec (get_user hw)]
   unfold Spec.stepEmit
   rw [target_eq hr hs]
   generalize resolveReg (commandGet m.d.tab id) m.d.err = tgt
   cases tgt with
   | none =>
-    refine ⟨sp, ?_, ?_, rfl⟩
-    · simp [Spec.isErr]
-    · exact ⟨hr.live, hr.fb, hr.dflt, hr.next⟩
+    by_cases hb : m.d.bi = true
+    · have hsb : sp.bi = true := by rw [hr.bi]; exact hb
+      refine ⟨{ sp with dflt := (book sp.dflt id (builtinAnswer id msg)).2 }, ?_, ?_, by simp [hb]⟩
+      · simp [Spec.stepUnhandled, hsb, hb, hr.dflt]
+      · simp only [hb, if_true]
+        exact ⟨hr.live, hr.fb, by simp [hr.dflt], hr.next, hsb⟩
+    · have hsb : sp.bi = false := by rw [hr.bi]; simpa using hb
+      refine ⟨sp, ?_, ?_, by simp [hb]⟩
+      · simp [Spec.stepUnhandled, hsb, hb, Spec.isErr]
+      · simp only [hb]
+        exact ⟨hr.live, hr.fb, hr.dflt, hr.next, hr.bi⟩
   | some r =>
     refine ⟨{ sp with dflt := (book sp.dflt id h).2 }, ?_, ?_, rfl⟩
     · simp [Spec.stepDeliver, hr.dflt]
-    · exact ⟨hr.live, hr.fb, by simp [hr.dflt], hr.next⟩
+    · exact ⟨hr.live, hr.fb, by simp [hr.dflt], hr.next, hr.bi⟩
 
 theorem refines_emitId {m : St} {sp : Spec} {id : Id} {h : HRes} (hw : TWf m.d.tab) (hr : Rel m sp) (hs : SInv sp) :
     ∃ sp', sp.step (.emitId id h) (step m (.emitId id h)).2 = some sp' ∧ Rel (step m (.emitId id h)).1 sp' ∧
       TWf (step m (.emitId id h)).1.d.tab := by
-  obtain ⟨sp', h1, h2, h3⟩ := refines_resolved (id := id) (h := h) hw hr hs
+  obtain ⟨sp', h1, h2, h3⟩ := refines_resolved (id := id) (msg := none) (h := h) hw hr hs
   refine ⟨sp', ?_, ?_, ?_⟩
   · simpa [step, Spec.step, dispatchEmit] using h1
   · simpa [step, dispatchEmit] using h2
@@ -514,10 +555,10 @@ theorem refines_emitMsg {m : St} {sp : Spec} {msg : List Byte} {h : HRes} (hw : 
   | nil =>
     refine ⟨sp, ?_, ?_, ?_⟩
     · simp [step, Spec.step, dispatchEmit, Spec.isErr]
-    · simp only [step, dispatchEmit]; exact ⟨hr.live, hr.fb, hr.dflt, hr.next⟩
+    · simp only [step, dispatchEmit]; exact ⟨hr.live, hr.fb, hr.dflt, hr.next, hr.bi⟩
     · simp only [step, dispatchEmit]; exact hw
   | cons b rest =>
-    obtain ⟨sp', h1, h2, h3⟩ := refines_resolved (id := b.toUInt64) (h := h) hw hr hs
+    obtain ⟨sp', h1, h2, h3⟩ := refines_resolved (id := b.toUInt64) (msg := some (b :: rest)) (h := h) hw hr hs
     refine ⟨sp', ?_, ?_, ?_⟩
     · simpa [step, Spec.step, dispatchEmit] using h1
     · simpa [step, dispatchEmit] using h2
@@ -529,7 +570,7 @@ theorem refines_emitNone {m : St} {sp : Spec} {h : HRes} (hw : TWf m.d.tab) (hr 
   by_cases hd0 : m.d.dflt = 0
   · refine ⟨sp, ?_, ?_, ?_⟩
     · simp [step, Spec.step, dispatchEmit, hd0, hr.dflt]
-    · simp only [step, dispatchEmit, hd0, if_true]; exact ⟨hr.live, hr.fb, hr.dflt, hr.next⟩
+    · simp only [step, dispatchEmit, hd0, if_true]; exact ⟨hr.live, hr.fb, hr.dflt, hr.next, hr.bi⟩
     · simp only [step, dispatchEmit, hd0, if_true]; exact hw
   · have hsd : ¬ sp.dflt = 0 := by rw [hr.dflt]; exact hd0
     cases hg : commandGet m.d.tab m.d.dflt with
@@ -538,11 +579,11 @@ theorem refines_emitNone {m : St} {sp : Spec} {h : HRes} (hw : TWf m.d.tab) (hr 
       · have hlk := hr.lookup_none (commandGet_none hg)
         rw [← hr.dflt] at hlk
         simp [step, Spec.step, dispatchEmit, hd0, hsd, hg, hlk, Spec.isErr, Err.code]
-      · simp only [step, dispatchEmit, hd0, if_false, hg]; exact ⟨hr.live, hr.fb, rfl, hr.next⟩
+      · simp only [step, dispatchEmit, hd0, if_false, hg]; exact ⟨hr.live, hr.fb, rfl, hr.next, hr.bi⟩
       · simp only [step, dispatchEmit, hd0, if_false, hg]; exact hw
     | some c =>
       obtain ⟨i, s⟩ := c
-      obtain ⟨sp', h1, h2, h3⟩ := refines_resolved (id := m.d.dflt) (h := h) hw hr hs
+      obtain ⟨sp', h1, h2, h3⟩ := refines_resolved (id := m.d.dflt) (msg := none) (h := h) hw hr hs
       rw [hg] at h1 h2 h3
       have hlk : sp.lookup sp.dflt = some s.arg := by
         rw [hr.dflt, lookup_eq hr hs, hg]; rfl
@@ -556,7 +597,7 @@ theorem refines_emitNone {m : St} {sp : Spec} {h : HRes} (hw : TWf m.d.tab) (hr 
       · simp only [step, dispatchEmit, hd0, if_false, hg]; rw [h3]; exact hw
 
 
-theorem stepHashId_same {sp sp' : Spec} {cid : Option Id} {h : HRes} {out : Out} (hst : sp.stepHashId cid h out = some sp') : sp' = sp := by
+theorem stepHashId_same {sp sp' : Spec} {msg : List Byte} {cid : Option Id} {h : HRes} {out : Out} (hst : sp.stepHashId msg cid h out = some sp') : sp' = sp := by
   unfold Spec.stepHashId at hst
   repeat' split at hst
   all_goals first | cases hst; rfl | cases hst
@@ -583,7 +624,7 @@ theorem refines_hash {m : St} {sp : Spec} {msg : List Byte} {h : HRes} (hw : TWf
       TWf (step m (.hash msg h)).1.d.tab := by
   refine ⟨sp, ?_, ?_, ?_⟩
   · simp only [step, Spec.step]
-    apply findSome_const (fun x y hxy => stepHashId_same hxy)
+    apply findSome_const (f := fun cid => sp.stepHashId msg cid h (dispatchHash m.d msg h)) (fun x y hxy => stepHashId_same hxy)
     rcases hashId_cmdIds msg with ⟨v, hv, hmem⟩ | ⟨hf, hmem⟩
     · refine ⟨some v, hmem, ?_⟩
       unfold dispatchHash
@@ -601,13 +642,18 @@ theorem refines_hash {m : St} {sp : Spec} {msg : List Byte} {h : HRes} (hw : TWf
       | none =>
         have hlk : sp.lookup v = none := by rw [lookup_eq hr hs, hg]; rfl
         cases he : m.d.err with
-        | none => simp [Spec.stepHashId, hlk, hr.fb, he]
+        | none =>
+          by_cases hb : m.d.bi = true
+          · have hsb : sp.bi = true := by rw [hr.bi]; exact hb
+            simp [Spec.stepHashId, hlk, hr.fb, he, hb, hsb, (unknownEvent_answer v (some msg)).1]
+          · have hsb : sp.bi = false := by rw [hr.bi]; simpa using hb
+            simp [Spec.stepHashId, hlk, hr.fb, he, hb, hsb]
         | some r => simp [Spec.stepHashId, hlk, hr.fb, he, invoke]
     · refine ⟨none, hmem, ?_⟩
       unfold dispatchHash
       rw [hf]
       simp [Spec.stepHashId]
-  · simp only [step]; exact ⟨hr.live, hr.fb, hr.dflt, hr.next⟩
+  · simp only [step]; exact ⟨hr.live, hr.fb, hr.dflt, hr.next, hr.bi⟩
   · simp only [step]; exact hw
 
 theorem refines_fini {m : St} {sp : Spec} (hw : TWf m.d.tab) (hr : Rel m sp) (hs : SInv sp) :
@@ -617,7 +663,7 @@ theorem refines_fini {m : St} {sp : Spec} (hw : TWf m.d.tab) (hr : Rel m sp) (hs
     cases ht : m.d.tab with
     | none => simp [liveList]
     | some t => simp only [liveList_some]; exact clear_log (hw.user t ht)
-  refine ⟨{ sp with live := [], fb := none, dflt := 0 }, ?_, ?_, ?_⟩
+  refine ⟨{ sp with live := [], fb := none, bi := false, dflt := 0 }, ?_, ?_, ?_⟩
   · simp only [step, Spec.step, dispatchFini, hlog]
     have : Spec.sameSet ((liveList m.d.tab).map (.fin ·.2) ++ errFin m.d.err) (sp.liveRegs.map .fin) = true := by
       rw [sameSet_iff]
@@ -687,15 +733,16 @@ theorem refines_reserve {m : St} {sp : Spec} {w : Nat} (hw : TWf m.d.tab) (hr : 
         · exact hr.fb
         · exact hr.dflt
         · simp [hr.next]
+        · exact hr.bi
       · simp only [step, hres]
         constructor
         · rw [hlive]; exact hw.keys
         · rw [hlive]; exact hw.regs
         · intro t' ht' s hs'
-          obtain ⟨t, ht, hst⟩ := hsub t' ht' s hs'
-          exact hw.user t ht s hst
+          obtain ⟨t, ht, hst⟩ := hsub t' ht'
+          exact hw.user t ht s (hst s hs')
     | some idx =>
-      obtain ⟨a, b, idv, m0, cap, typed, htab, hidx, hlive, hsub, hfresh⟩ := commandReserve_some hres
+      obtain ⟨a, b, idv, m0, cap, htab, hidx, hlive, hsub, hfresh⟩ := commandReserve_some hres
       subst htab hidx
       have hget : (a ++ (⟨idv, some .logReply, m0⟩ : Slot) :: b)[a.length]? = some ⟨idv, some .logReply, m0⟩ := by simp
       have hset : (a ++ (⟨idv, some .logReply, m0⟩ : Slot) :: b).set a.length ⟨idv, some .user, m.next⟩ = a ++ ⟨idv, some .user, m.next⟩ :: b := by
@@ -723,6 +770,7 @@ theorem refines_reserve {m : St} {sp : Spec} {w : Nat} (hw : TWf m.d.tab) (hr : 
         · exact hr.fb
         · exact hr.dflt
         · simp [hr.next]
+        · exact hr.bi
       · simp only [step, hres, activate, hget, hset]
         constructor
         · rw [liveList_some, hnew]
@@ -750,6 +798,101 @@ theorem refines_reserve {m : St} {sp : Spec} {w : Nat} (hw : TWf m.d.tab) (hr : 
             · intro hc; unfold Slot.live at hdead; rw [hc] at hdead; cases hdead
           · simp
 
+theorem refines_drop {m : St} {sp : Spec} (hw : TWf m.d.tab) (hr : Rel m sp) (_hs : SInv sp) :
+    ∃ sp', sp.step .drop (step m .drop).2 = some sp' ∧ Rel (step m .drop).1 sp' ∧ TWf (step m .drop).1.d.tab := by
+  have hlog : arrayDrop m.d.tab = (liveList m.d.tab).map (.fin ·.2) := by
+    unfold arrayDrop
+    cases ht : m.d.tab with
+    | none => simp [liveList]
+    | some t => simp only [liveList_some]; exact clear_log (hw.user t ht)
+  refine ⟨{ sp with live := [] }, ?_, ?_, ?_⟩
+  · have : Spec.sameSet (arrayDrop m.d.tab) (sp.live.map (.fin ·.2)) = true := by
+      rw [sameSet_iff, hlog]
+      refine ⟨fin_map_nodup hw.regs, ?_⟩
+      intro e
+      simp only [List.mem_map]
+      constructor
+      · rintro ⟨p, hp, rfl⟩; exact ⟨p, (hr.live p).mp hp, rfl⟩
+      · rintro ⟨p, hp, rfl⟩; exact ⟨p, (hr.live p).mpr hp, rfl⟩
+    simp [step, Spec.step, Spec.isOk, this]
+  · simp only [step]
+    constructor
+    · intro p; simp [liveList]
+    · exact hr.fb
+    · exact hr.dflt
+    · exact hr.next
+    · exact hr.bi
+  · simp only [step]; exact TWf.none
+
+/-- `_command_init` refuses to copy the element of a live registration -/
+theorem traitsCopy_spec (tab : Option Table) (r : Reg) :
+    traitsCopy tab r < 0 ∨ ∀ p, p ∈ liveList tab → p.2 ≠ r := by
+  unfold traitsCopy
+  cases tab with
+  | none => right; intro p hp; simp [liveList] at hp
+  | some t =>
+    simp only
+    by_cases hany : t.slots.any (fun s => s.live && s.arg == r) = true
+    · left; simp [hany, Err.code]
+    · right
+      intro p hp hpr
+      rw [liveList_some, mem_liveL] at hp
+      obtain ⟨s, hs, hl, he⟩ := hp
+      apply hany
+      rw [List.any_eq_true]
+      exact ⟨s, hs, by simp [hl, ← hpr, he]⟩
+
+theorem refines_tcopy {m : St} {sp : Spec} {r : Reg} (hw : TWf m.d.tab) (hr : Rel m sp) (_hs : SInv sp) :
+    ∃ sp', sp.step (.tcopy r) (step m (.tcopy r)).2 = some sp' ∧ Rel (step m (.tcopy r)).1 sp' ∧ TWf (step m (.tcopy r)).1.d.tab := by
+  refine ⟨sp, ?_, ⟨hr.live, hr.fb, hr.dflt, hr.next, hr.bi⟩, hw⟩
+  have hout : (step m (.tcopy r)).2 = ⟨.val (traitsCopy m.d.tab r), []⟩ := rfl
+  rw [hout]
+  show (if ((([] : List LogE) == []) && (Spec.isErr (.val (traitsCopy m.d.tab r)) ||
+      (Spec.isOk (.val (traitsCopy m.d.tab r)) && !(sp.live.map (·.2)).contains r))) = true
+    then some sp else none) = some sp
+  apply if_pos
+  rcases traitsCopy_spec m.d.tab r with hneg | hno
+  · simp [Spec.isErr, hneg]
+  · have : ¬ (sp.live.map (·.2)).contains r = true := by
+      simp only [List.contains_iff_mem, List.mem_map, not_exists, not_and]
+      intro p hp
+      exact hno p ((hr.live p).mpr hp)
+    have h2 : (sp.live.map (·.2)).contains r = false := by simpa using this
+    by_cases hneg : traitsCopy m.d.tab r < 0
+    · simp [Spec.isErr, hneg]
+    · simp [Spec.isErr, Spec.isOk, hneg, h2]
+      omega
+
+theorem refines_setDefault {m : St} {sp : Spec} {id : Id} (hw : TWf m.d.tab) (hr : Rel m sp) (hs : SInv sp) :
+    ∃ sp', sp.step (.setDefault id) (step m (.setDefault id)).2 = some sp' ∧ Rel (step m (.setDefault id)).1 sp' ∧
+      TWf (step m (.setDefault id)).1.d.tab := by
+  have hlk := lookup_eq (id := id) hr hs
+  cases hg : commandGet m.d.tab id with
+  | some c =>
+    rw [hg] at hlk
+    refine ⟨{ sp with dflt := id }, ?_, ?_, ?_⟩
+    · simp [step, Spec.step, setDefaultX, hg, hlk, Spec.isOk]
+    · simp only [step, setDefaultX, hg]
+      exact ⟨hr.live, hr.fb, rfl, hr.next, hr.bi⟩
+    · simp only [step, setDefaultX, hg]; exact hw
+  | none =>
+    rw [hg] at hlk
+    refine ⟨sp, ?_, ?_, ?_⟩
+    · simp [step, Spec.step, setDefaultX, hg, hlk, Spec.isErr]
+    · simp only [step, setDefaultX, hg]
+      exact ⟨hr.live, hr.fb, hr.dflt, hr.next, hr.bi⟩
+    · simp only [step, setDefaultX, hg]; exact hw
+
+theorem refines_setError {m : St} {sp : Spec} (hw : TWf m.d.tab) (hr : Rel m sp) (_hs : SInv sp) :
+    ∃ sp', sp.step .setError (step m .setError).2 = some sp' ∧ Rel (step m .setError).1 sp' ∧
+      TWf (step m .setError).1.d.tab := by
+  refine ⟨{ sp with fb := some sp.next, bi := false, next := sp.next + 1, regd := sp.regd ++ [sp.next] }, ?_, ?_, ?_⟩
+  · simp only [step, Spec.step, setErrorX, errFin, hr.fb]
+    cases m.d.err <;> simp [Spec.isOk]
+  · simp only [step, setErrorX]
+    exact ⟨hr.live, by simp [hr.next], hr.dflt, by simp [hr.next], rfl⟩
+  · simp only [step, setErrorX]; exact hw
+
 /-- one step of the model is accepted by the monitor and keeps the refinement relation -/
 theorem step_refines {m : St} {sp : Spec} {op : Op} (hw : TWf m.d.tab) (hr : Rel m sp) (hs : SInv sp) :
     ∃ sp', sp.step op (step m op).2 = some sp' ∧ Rel (step m op).1 sp' ∧ TWf (step m op).1.d.tab := by
@@ -764,6 +907,10 @@ theorem step_refines {m : St} {sp : Spec} {op : Op} (hw : TWf m.d.tab) (hr : Rel
   | hash msg h => exact refines_hash hw hr hs
   | reserve w => exact refines_reserve hw hr hs
   | fini => exact refines_fini hw hr hs
+  | drop => exact refines_drop hw hr hs
+  | tcopy r => exact refines_tcopy hw hr hs
+  | setDefault id => exact refines_setDefault hw hr hs
+  | setError => exact refines_setError hw hr hs
 
 /-- histories: the monitor accepts the whole trace, and the log stays well-formed -/
 theorem runFrom_refines {ops : List Op} {m : St} {sp : Spec} {L : List LogE} (hw : TWf m.d.tab) (hr : Rel m sp) (hs : SInv sp)
@@ -781,7 +928,7 @@ theorem runFrom_refines {ops : List Op} {m : St} {sp : Spec} {L : List LogE} (hw
       exact h2
     · simpa [runFrom, logOf, List.append_assoc] using hl2
 
-theorem run_refines (fb : Bool) (ops : List Op) :
+theorem run_refines (fb : Start) (ops : List Op) :
     ∃ sp', (Spec.init fb).run (run fb ops).2 = some sp' ∧ Rel (run fb ops).1 sp' ∧ TWf (run fb ops).1.d.tab ∧ SInv sp' ∧
       LInv sp' (logOf (run fb ops).2) := by
   have := runFrom_refines (ops := ops) (m := St.init fb) (sp := Spec.init fb) (L := [])
